@@ -33,7 +33,7 @@ static void fix_random() {
 typedef void (*CatFn)(std::vector<Entry>&);
 struct Part { const char* name; std::vector<CatFn> fns; };
 static std::vector<Part> parts() {
-  return { {"theta", {cat_theta, cat_tuple, cat_aod}}, {"hll", {cat_hll}}, {"cpc", {cat_cpc, cat_cm, cat_bloom}},
+  return { {"theta", {cat_theta, cat_tuple, cat_aod}}, {"setops", {cat_setops}}, {"cpcgrid", {cat_cpcgrid, cat_cpctab}}, {"hll", {cat_hll}}, {"cpc", {cat_cpc, cat_cm, cat_bloom}},
            {"kll", {cat_kll}}, {"quant", {cat_req, cat_cq, cat_td}}, {"misc", {cat_fi, cat_vo, cat_eb, cat_den}} };
 }
 static std::vector<Entry> build(const std::string& part) {
@@ -44,17 +44,20 @@ static std::vector<Entry> build(const std::string& part) {
 
 static void emit_image(const Entry& e) {
   Ev("Image").str("name", e.name).str("family", e.family).str("kind", e.kind).raw("hints", e.hints)
-      .raw("bytes", bvec(e.bytes)).raw("proj", e.proj).emit();
+      .raw("bytes", bvec(e.bytes)).b("ssame", e.sbytes == e.bytes).raw("sbytes", e.sbytes == e.bytes ? std::string("[]") : bvec(e.sbytes)).raw("proj", e.proj).emit();
 }
 static void emit_stored(const Entry& e, const Bytes& stored) {
   Ev ev("ReadStored");
   ev.str("name", e.name).str("family", e.family).str("kind", e.kind).raw("hints", e.hints).raw("bytes", bvec(stored));
-  try {
-    fix_random();
-    Read r = e.reader(stored);
-    ev.b("ok", true).raw("proj", r.proj).raw("reser", bvec(r.reser));
-  } catch (const std::exception& ex) {
-    ev.b("ok", false).raw("proj", "{}").raw("reser", "[]");
+  for (int st = 0; st < 2; st++) {       // bytes reader + bytes writer, then stream reader + stream writer
+    const char* kp = st ? "sproj" : "proj"; const char* kr = st ? "sreser" : "reser"; const char* ko = st ? "sok" : "ok";
+    try {
+      fix_random();
+      Read r = e.reader(stored, st != 0);
+      ev.b(ko, true).raw(kp, r.proj).raw(kr, bvec(r.reser));
+    } catch (const std::exception& ex) {
+      ev.b(ko, false).raw(kp, "{}").raw(kr, "[]");
+    }
   }
   ev.emit();
 }
